@@ -4,7 +4,8 @@
 (* tool knows (`tmv keys`).  Cases: every key, pressed and released, as a   *)
 (* one-event batch; every batch of length 0..MaxLen over a small event      *)
 (* alphabet; every interleaving (length <= MaxItems) of batches with        *)
-(* foreign records on the read side: auto-repeat, MSC, ABS, SYN, unknown    *)
+(* foreign records on the read side: auto-repeat, MSC, ABS, SYN (REPORT,    *)
+(* DROPPED, MT_REPORT), unknown                                              *)
 (* code, out-of-range value, a raw valid key record.                        *)
 (***************************************************************************)
 EXTENDS Integers, Sequences, FiniteSets, SequencesExt, TLC, Json, IOUtils
@@ -23,7 +24,9 @@ Singles == {<<B(<<P(k)>>)>>: k \in Names} \cup {<<B(<<R(k)>>)>>: k \in Names}
 Batches == {<<B(b)>>: b \in SeqsUpTo(Small, MaxLen)}
 Items == {B(<<P("A"), R("A")>>), B(<<>>), B(<<R("LEFTSHIFT")>>),
           Raw(1, 30, 2), Raw(4, 4, 30), Raw(3, 0, 5), Raw(0, 0, 0), Raw(1, 767, 1), Raw(1, 0, 1), Raw(1, 30, 3), Raw(1, 30, -1),
-          Raw(1, 30, 1), Raw(1, 48, 0), Raw(17, 1, 1), Raw(2, 8, 1), Raw(4, 4, 1), Raw(1, 84, 1), Raw(5, 1, 1), Raw(5, 1, 0), Raw(5, 0, 1), Raw(5, 1, 2)}
+          Raw(1, 30, 1), Raw(1, 48, 0), Raw(17, 1, 1), Raw(2, 8, 1), Raw(4, 4, 1), Raw(1, 84, 1), Raw(5, 1, 1), Raw(5, 1, 0), Raw(5, 0, 1), Raw(5, 1, 2),
+          \* SYN_DROPPED (the kernel overran the client buffer; what follows are genuine records), SYN_MT_REPORT
+          Raw(0, 3, 0), Raw(0, 2, 0)}
 Mixed == {s \in SeqsUpTo(Items, MaxItems): s # <<>>}
 Cases == SetToSeq(Singles \cup Batches \cup Mixed)
 ASSUME ndJsonSerialize(IOEnv.OUT, [i \in 1..Len(Cases) |-> [id |-> i, writes |-> Cases[i]]])
